@@ -411,7 +411,9 @@ def _drv_fn(two_exhaustive):
 # Driver, part (b)
 # =========================================================================================================
 
-def _drv_tree(depth, full_fanout_budget):
+def _drv_tree(depth, full_fanout_budget, chain=False):
+    """chain=True: single-child chains only (nk=1) but the build order `how` of every list is exhaustive: reaches
+    nested ModuleList/Sequential of the full depth cheaply (quick tier)."""
     def node(ch, budget, path, is_root, key_kind):
         kinds = ["leaf"] if budget == 1 else ["leaf", "cont", "list", "seq"]
         if is_root:
@@ -422,7 +424,9 @@ def _drv_tree(depth, full_fanout_budget):
             # an explicit name equal to the name the module inherits anyway (attribute name / Sequential key)
             s["named"] = ch.flag(f"named@{path}") if key_kind in ("attr", "seq", "root") else False
             return s
-        if budget <= full_fanout_budget:
+        if chain:
+            nk = 1 if budget > 2 else ch.all(f"nk@{path}", [1, 2])
+        elif budget <= full_fanout_budget:
             nk = ch.all(f"nk@{path}", [1, 2])
         else:
             nk = 2 if ch.flag(f"nk2@{path}") else 1
@@ -436,7 +440,7 @@ def _drv_tree(depth, full_fanout_budget):
         if kind == "cont":
             return {"t": "cont", "kids": kids, "named": ch.flag(f"named@{path}") if key_kind in ("attr", "seq", "root") else False}
         hows = ["ctor", "append", "extend"] if is_root else ["ctor", "append", "append_pre", "extend", "slice"]
-        return {"t": kind, "kids": kids, "how": ch.choose(f"how@{path}", hows)}
+        return {"t": kind, "kids": kids, "how": (ch.all if chain else ch.choose)(f"how@{path}", hows)}
 
     def driver(ch):
         spec = node(ch, depth, "r", True, "root")
@@ -504,6 +508,7 @@ def _explorations(tier):
             ("sub", _drv_sub(2, False, len_exhaustive=False), 1),
             ("fn", _drv_fn(False), 1),
             ("tree", _drv_tree(3, 3), 1),
+            ("tree", _drv_tree(4, 3, chain=True), 1),
         ]
     return [
         ("seq1", _drv_seq(1, [full]), 4),
